@@ -149,3 +149,41 @@ Example reference_solve_exact :
        (GainFloat.solve AdaptIntProofs.QOps GainFloatExamples.exH GainFloatExamples.exS) 2)
     GainFloatExamples.exS = true.
 Proof. exact GainFloatExamples.solve_exact_example. Qed.
+
+(* ---- the model is written with the index arithmetic of the *current* source (coq/Gen/GenGain.v is regenerated from
+   symmatrix.cpp and gain.h by translators/t_gain.py before every build) ---- *)
+From Coq Require String.
+From OM Require Gen.GenGain Geom.GainSites.
+Local Notation z0 := BinNums.Z0.
+Local Notation z1 := (BinNums.Zpos BinNums.xH).
+Theorem solveLin_call_ok : forall nlin rn rc : BinNums.Z,
+  BinInt.Z.le z0 rn -> BinInt.Z.le z1 rc -> GenGain.gen_solveLin_assert nlin rn rc = true ->
+  GenGain.gen_sptrf_uplo = GenGain.gen_sptrs_uplo /\
+  GenGain.gen_sptrf_n nlin rn rc = nlin /\ GenGain.gen_sptrs_n nlin rn rc = nlin /\
+  GenGain.gen_sptrs_nrhs nlin rn rc = rc /\ GenGain.gen_sptrs_ldb nlin rn rc = rn /\
+  BinInt.Z.add (BinInt.Z.mul (GenGain.gen_sptrs_ldb nlin rn rc) (BinInt.Z.sub (GenGain.gen_sptrs_nrhs nlin rn rc) z1)) (GenGain.gen_sptrs_n nlin rn rc)
+    = BinInt.Z.mul rn rc /\
+  (BinInt.Z.le z1 nlin -> BinInt.Z.le (BinInt.Z.max z1 (GenGain.gen_sptrs_n nlin rn rc)) (GenGain.gen_sptrs_ldb nlin rn rc)).
+Proof. exact GainSites.solveLin_call_ok. Qed.
+
+Theorem linsolve_steps_ok :
+  GenGain.gen_linsolve_steps = (GenGain.StTranspose :: GenGain.StSolve :: GenGain.StRetTranspose :: nil)%list.
+Proof. exact GainSites.linsolve_steps_ok. Qed.
+
+Theorem adjoint_columns_ok : forall i dc : BinNums.Z,
+  GenGain.gen_eeg_adjoint_rhs = GainSites.name_eeg /\ GenGain.gen_meg_adjoint_rhs = GainSites.name_meg /\
+  GenGain.gen_eeg_adjoint_dip i dc = (i, z1, z0, dc, z0) /\ GenGain.gen_meg_adjoint_dip i dc = (i, z1, z0, dc, z0) /\
+  GenGain.gen_both_adjoint_dip i dc = (i, z1, z0, dc, z0) /\
+  GenGain.gen_eeg_adjoint_plus i = None /\ GenGain.gen_meg_adjoint_plus i = Some i /\
+  GenGain.gen_both_eeg_plus i = None /\ GenGain.gen_both_meg_plus i = Some i.
+Proof. exact GainSites.adjoint_columns_ok. Qed.
+
+Theorem eegmeg_ranges_ok : forall i me mm n : BinNums.Z,
+  GenGain.gen_rhs_shape me mm n = (BinInt.Z.add me mm, n) /\
+  GenGain.gen_rhs_row_eeg i me mm n = i /\ GenGain.gen_rhs_row_meg i me mm n = BinInt.Z.add me i /\
+  GenGain.gen_both_eeg_range me mm n = (z0, me, z0, n) /\ GenGain.gen_both_meg_range me mm n = (me, mm, z0, n).
+Proof. exact GainSites.eegmeg_ranges_ok. Qed.
+Theorem translator_clean : GenGain.gen_problems = nil.
+Proof. exact GainSites.translator_clean. Qed.
+Print Assumptions solveLin_call_ok.
+Print Assumptions eegmeg_ranges_ok.
